@@ -44,6 +44,11 @@ type Job struct {
 	// ParallelOps: the accessors named in Ops are called at the same time from one goroutine each, on the one freshly built catalog
 	// (so the first use of every lazily built part is concurrent), with value-determined delays at the library's yield points.
 	ParallelOps bool `json:"parallel_ops,omitempty"`
+	// SharedBan: like Banned, but given as several options, each a process-wide Option value reused by every build of the process
+	// that names the same kinds. OptSeq: a list of builds of this project, each with its own SharedBan list, run one after the other
+	// in this process; Result.OptSigs has one result signature per build.
+	SharedBan [][]string   `json:"shared_ban,omitempty"`
+	OptSeq    [][][]string `json:"opt_seq,omitempty"`
 	// Conc describes a concurrent job (C18).
 	Conc *ConcJob `json:"conc,omitempty"`
 	// Seq: operation sequences for C16; each is run on a fresh build of the project.
@@ -65,6 +70,9 @@ type ConcJob struct {
 type ConcProject struct {
 	Name    string `json:"name"`
 	Content []byte `json:"content"`
+	// SharedBan: build with these ban options, each a process-wide Option VALUE that every build naming the same kinds reuses
+	// (a caller may keep its options in variables); nil = no option.
+	SharedBan [][]string `json:"shared_ban,omitempty"`
 }
 
 type ErrInfo struct {
@@ -196,6 +204,7 @@ type Result struct {
 	SeqCalls int           `json:"seqCalls,omitempty"`
 	Conc     *ConcResult   `json:"conc,omitempty"`
 	Probes   []ProbeResult `json:"probes,omitempty"`
+	OptSigs   []string      `json:"opt_sigs,omitempty"`
 	// WorkerErr: the worker could not even set the case up (harness problem, inconclusive).
 	WorkerErr string `json:"workerErr,omitempty"`
 	// Fatal is filled by the driver when the worker died during this job.
